@@ -87,6 +87,7 @@ impl Handler for NoSyncFnInAsyncFnHandler {
     use deno_ast::view::Expr;
     if_chain! {
       if let Expr::Ident(obj) = &member_expr.obj;
+      if obj.ctxt() == ctx.unresolved_ctxt();
       if ctx.scope().is_global(&obj.inner.to_id());
       let obj_symbol: &str = obj.sym();
       if obj_symbol == "Deno";
